@@ -231,9 +231,10 @@ class FakeQueue:
     """``Manager().Queue()``: unbounded, linearizable FIFO living in the manager
     process; the proxy pickles by reference."""
 
-    def __init__(self, sim: Sim, manager: "FakeManager") -> None:
+    def __init__(self, sim: Sim, manager: "FakeManager", maxsize: int = 0) -> None:
         self.sim = sim
         self.manager = manager
+        self.maxsize = int(maxsize) if maxsize and maxsize > 0 else 0
         self.qid = sim.next_id("queue")
         self.items: deque = deque()
         sim.objects[f"queue:{self.qid}"] = self
@@ -252,7 +253,15 @@ class FakeQueue:
 
     def put(self, obj, block: bool = True, timeout=None) -> None:
         payload = pickle.dumps(obj)
-        self.sim.sched_point(("q.put", self.qid))
+        if self.maxsize:
+            # bounded queue: put blocks while the queue is full
+            self.sim.probe("bounded_queue_put")
+            self.sim.sched_point(
+                ("q.put", self.qid),
+                cond=lambda: len(self.items) < self.maxsize or self.manager.closed,
+            )
+        else:
+            self.sim.sched_point(("q.put", self.qid))
         self._check()
         self.items.append((payload, self.sim.hb_send()))
         self.nput += 1
@@ -274,6 +283,9 @@ class FakeQueue:
 
     def empty(self) -> bool:
         return not self.items
+
+    def full(self) -> bool:
+        return bool(self.maxsize) and len(self.items) >= self.maxsize
 
 
 def _lookup(key: str):
@@ -301,7 +313,7 @@ class FakeManager:
         self.sim.note("manager.shutdown")
 
     def Queue(self, maxsize: int = 0) -> FakeQueue:  # noqa: N802
-        q = FakeQueue(self.sim, self)
+        q = FakeQueue(self.sim, self, maxsize)
         self.queues.append(q)
         return q
 
